@@ -13,7 +13,7 @@ import SkNet.Lemmas.ModularityLeiden
 import SkNet.Lemmas.ModularityLeidenComp
 import SkNet.Lemmas.ModularityRule
 import SkNet.Lemmas.ModularityConn
-import SkNet.Lemmas.ModularityTerm
+import SkNet.Lemmas.ModularityTermZero
 
 namespace SkNet.C06
 open SkNet SkNet.Modularity
@@ -176,20 +176,15 @@ theorem optimize_core_increase (g : Graph Rat) (hg : GraphOK g) (res tol : Rat) 
   let ⟨h1, h2, _⟩ := optimizeCore_spec g hg res tol K fuel st hinv labels' inc h
   ⟨h1, h2⟩
 
-/-- **termination of `optimize_core`** in exact arithmetic for a positive tolerance: `Q` is bounded over all
-    partitions and every pass that does not stop the loop raises it by more than `tol`, so from some fuel on the
-    model returns (and `optimize_core_increase` applies).  For `tol = 0` see `optimize_core_terminates_full`. -/
-theorem optimize_core_terminates_partial (g : Graph Rat) (hg : GraphOK g) (res tol : Rat) (htol : 0 < tol) (K : Nat)
+/-- **termination of `optimize_core`** in exact arithmetic, for every tolerance `≥ 0`: `Q` takes finitely many
+    values over the label vectors and every pass that does not stop the loop raises it by more than `tol ≥ 0`, so
+    from some fuel on the model returns (and `optimize_core_increase` applies).
+    With float32 rounding this does **not** carry over to the compiled kernel when `tol_optimization = 0`
+    (spurious gains can cycle for ever: observed, reported to C17). -/
+theorem optimize_core_terminates (g : Graph Rat) (hg : GraphOK g) (res tol : Rat) (htol : 0 ≤ tol) (K : Nat)
     (st : St Rat) (hinv : CoreInv g K st) :
     ∃ fuel : Nat, ∀ fuel', fuel ≤ fuel' → (optimizeCore g res tol fuel' st).isSome = true :=
-  optimizeCore_terminates g hg res tol htol K st hinv
-
-/-- the full statement (not proved): also for `tol = 0` the loop ends in exact arithmetic — finitely many
-    partitions, `Q` strictly increasing along accepted moves.  (With float32 rounding it does **not** hold of the
-    compiled kernel: `tol_optimization = 0` can cycle for ever on spurious gains; termination is C17's subject.) -/
-def optimize_core_terminates_full : Prop :=
-  ∀ (g : Graph Rat) (res tol : Rat) (K : Nat) (st : St Rat), GraphOK g → CoreInv g K st → 0 ≤ tol →
-    ∃ fuel : Nat, ∀ fuel', fuel ≤ fuel' → (optimizeCore g res tol fuel' st).isSome = true
+  optimizeCore_terminates_zero g hg res tol htol K st hinv
 
 /-- **clusters_within_components (one call of the kernel).**  A node only ever joins the cluster of a stored
     neighbour: if every cluster of the incoming labels lies in one connected component of the stored pattern
